@@ -249,6 +249,7 @@ def impl_file(path, timeout=2.0):
 
 
 _MB = None
+_UNPREDICTED_HANGS = [0]    # per process: after a few hangs the model did not predict, stop waiting 2 s for each
 
 
 def _mb():
@@ -388,6 +389,7 @@ class Batch(object):
         self.impl_s = 0.0
         self.model_s = 0.0
         self.vm = []                        # a few (entry, in, out) triples for the vm_compute cross-check
+        self.hashes = set()                 # hashes of the non-trivial lines of parts not distinct by construction
 
     def merge(self, o):
         self.n += o.n
@@ -409,12 +411,13 @@ class Batch(object):
         self.model_s += o.model_s
         if len(self.vm) < 400:
             self.vm.extend(o.vm[:4])
+        self.hashes |= o.hashes
 
 
 RC_IDS = ["C06-F1", "C06-F2", "C06-F3", "C06-F4", "C06-F5", "C06-F6", "C06-F7", "C06-F8"]
 
 
-def eval_cases(cases, rdflib_every=0, vm_every=0, known=None):
+def eval_cases(cases, rdflib_every=0, vm_every=0, known=None, by_hash=False):
     """model + implementation + oracle on a list of cases"""
     b = Batch()
     known = set(RC_IDS) if known is None else known
@@ -431,7 +434,9 @@ def eval_cases(cases, rdflib_every=0, vm_every=0, known=None):
         line = lines[i]
         so = sout[i]
         mobs = parse_doc_row(dout[i])
-        iobs = impl_doc(line, timeout=0.1 if mobs[0] == "H" else 2.0)
+        iobs = impl_doc(line, timeout=0.1 if mobs[0] == "H" else (2.0 if _UNPREDICTED_HANGS[0] < 3 else 0.3))
+        if iobs[0] == "H" and mobs[0] != "H":
+            _UNPREDICTED_HANGS[0] += 1
         b.n += 1
         b.status[iobs[0]] += 1
         if len(so) < 4 or so[0] != line:
@@ -445,7 +450,10 @@ def eval_cases(cases, rdflib_every=0, vm_every=0, known=None):
         if dom:
             b.in_dom += 1
         if c.ok in ("P", "L", "T") and len(c.items) > 0:
-            b.nontrivial += 1
+            if by_hash:
+                b.hashes.add(hash(line))
+            else:
+                b.nontrivial += 1
         if list(iobs) != list(mobs):
             b.corr_fail.append((c.tup(), line, iobs, mobs))
         ok = spec_ok(iobs, c)
@@ -499,14 +507,14 @@ def _work_forms(arg):
         cases.extend(gen(syms))
     out = Batch()
     for k in range(0, len(cases), 4000):
-        out.merge(eval_cases(cases[k:k + 4000], rdf, vm, known))
+        out.merge(eval_cases(cases[k:k + 4000], rdf, vm, known, by_hash=(kind != "main")))
     return out
 
 
 def _work_cases(arg):
     tups, rdf, vm, known = arg
     warnings.filterwarnings("ignore")
-    return eval_cases([Case.of_tup(t) for t in tups], rdf, vm, known)
+    return eval_cases([Case.of_tup(t) for t in tups], rdf, vm, known, by_hash=True)
 
 
 def chunks(l, n):
@@ -670,9 +678,11 @@ def run(tier, seed, replay=None):
 
     run.coverage.update({
         "evaluations": total.n + (docs["docs"] if docs else 0),
-        "distinct_nontrivial": total.nontrivial,
-        "rule": "lines are distinct by construction (product of distinct factors; random lines not deduplicated and "
-                "not counted); non-trivial = literal object with a non-empty lexical form",
+        "distinct_nontrivial": total.nontrivial + len(total.hashes),
+        "rule": "non-trivial = literal object with a non-empty lexical form.  Main product: distinct by construction "
+                "(no symbol of the alphabet is a concatenation of others, every other factor changes the line), "
+                "counted; focused product, node objects and random statements: distinct lines counted through a set "
+                "of line hashes (their subject IRI differs from the main product's)",
         "exhaustive": exhaustive,
         "exhaustive_space": "all lexical forms of <= %d symbols over the %d-symbol alphabet %r x %d suffix forms x %d "
                             "separator layouts x %d blank/no-blank before the dot x %d comment variants x %d subjects; "
